@@ -1,7 +1,32 @@
 //! replay search <family> [--budget-s N] [--seed S]      -> one JSON line {"found":bool,...}
 //! replay run <family> '<witness json>'                  -> exit 1 (and a JSON line) if the witness still fails
 use serde_json::{json, Value};
+use std::alloc::{GlobalAlloc, Layout, System};
+use std::sync::atomic::{AtomicUsize, Ordering};
 use std::time::{Duration, Instant};
+
+/// Allocation tracker: the largest single allocation request since the last reset (C06: no unbounded allocation).
+pub struct Tracking;
+pub static MAX_ALLOC: AtomicUsize = AtomicUsize::new(0);
+unsafe impl GlobalAlloc for Tracking {
+    unsafe fn alloc(&self, l: Layout) -> *mut u8 {
+        MAX_ALLOC.fetch_max(l.size(), Ordering::Relaxed);
+        System.alloc(l)
+    }
+    unsafe fn alloc_zeroed(&self, l: Layout) -> *mut u8 {
+        MAX_ALLOC.fetch_max(l.size(), Ordering::Relaxed);
+        System.alloc_zeroed(l)
+    }
+    unsafe fn realloc(&self, p: *mut u8, l: Layout, n: usize) -> *mut u8 {
+        MAX_ALLOC.fetch_max(n, Ordering::Relaxed);
+        System.realloc(p, l, n)
+    }
+    unsafe fn dealloc(&self, p: *mut u8, l: Layout) {
+        System.dealloc(p, l)
+    }
+}
+#[global_allocator]
+static GLOBAL: Tracking = Tracking;
 
 mod analyze;
 mod corpus;
